@@ -2,14 +2,20 @@ package scion
 
 import (
 	"context"
+	"errors"
 
 	"github.com/scionproto/scion/pkg/daemon"
 	"github.com/scionproto/scion/pkg/drkey"
 	"github.com/scionproto/scion/pkg/drkey/generic"
 )
 
+var errNoDaemonConnector = errors.New("no SCION daemon connector")
+
 func FetchHostASKey(ctx context.Context, dc daemon.Connector, meta drkey.HostASMeta) (
 	drkey.HostASKey, error) {
+	if dc == nil {
+		return drkey.HostASKey{}, errNoDaemonConnector
+	}
 	return dc.DRKeyGetHostASKey(ctx, meta)
 }
 
@@ -38,5 +44,8 @@ func DeriveHostHostKey(hostASKey drkey.HostASKey, dstHost string) (
 
 func FetchHostHostKey(ctx context.Context, dc daemon.Connector, meta drkey.HostHostMeta) (
 	drkey.HostHostKey, error) {
+	if dc == nil {
+		return drkey.HostHostKey{}, errNoDaemonConnector
+	}
 	return dc.DRKeyGetHostHostKey(ctx, meta)
 }
